@@ -368,6 +368,8 @@ class MetaFile:
         logger.debug("sorting dictionary keys")
         meta = self.meta
         meta["info"] = dict(sorted(list(meta["info"].items())))
+        if "piece layers" in meta:
+            meta["piece layers"] = dict(sorted(meta["piece layers"].items()))
         meta = dict(sorted(list(meta.items())))
         return meta
 
